@@ -13,6 +13,7 @@ import (
 
 	"github.com/alpacahq/marketstore/v4/utils/io"
 	"github.com/alpacahq/marketstore/v4/utils/log"
+	"github.com/alpacahq/marketstore/v4/utils/verifhook"
 )
 
 type Directory struct {
@@ -207,6 +208,7 @@ func (d *Directory) AddTimeBucket(tbk *io.TimeBucketKey, f *io.TimeBucketInfo) (
 	if err != nil {
 		return err
 	}
+	verifhook.At("catalog.addbucket.pre_addsubdir")
 	d.addSubdir(childDirectory, childNodeName)
 	return nil
 }
@@ -238,6 +240,7 @@ func (d *Directory) RemoveTimeBucket(tbk *io.TimeBucketKey) (err error) {
 				return err2
 			}
 			deleteMap[i] = true // This dir was deleted, we'll remove it from the parent's subdir list later
+			verifhook.At("catalog.remove.between")
 		} else if deleteMap[i+1] {
 			tree[i].removeSubDir(tree[i+1].itemName, d.directMap)
 		}
@@ -390,6 +393,7 @@ func (d *Directory) AddFile(newYear int16) (fInfoPtr *io.TimeBucketInfo, err err
 		}
 		return nil, err
 	}
+	verifhook.At("catalog.addfile.created")
 	// Locate the directory in the catalog
 	d.Lock()
 	d.datafile[newFileInfo.Path] = newFileInfo
